@@ -538,6 +538,8 @@ func C03(p *engine.Prog, r *engine.Report) {
 	c03R7(p, r)
 	// R8: proposer eligibility is judged on a validator view that follows every reset of the trees
 	importRules(p, r, "C08", map[string]string{"C08-R4": "C03-R8"})
+	// proposer eligibility is judged on the validators cache: it must equal a rebuild (shared with C10)
+	importRules(p, r, "C10", map[string]string{"C10-R4": "C03-R8", "C10-R5": "C03-R8", "C10-R6": "C03-R8", "C10-R7": "C03-R8"})
 	c03R9(p, r)
 	processTxsExhaustiveRule(p, r, "C03-R9")
 	// no result of a fallible call is consumed before that call's error test (belief contradiction:
@@ -555,6 +557,24 @@ func C03(p *engine.Prog, r *engine.Report) {
 				}
 			}
 		}
+		// the commitment trees: a key handed to tree.Set inside a loop is not a buffer shared by all
+		// iterations (IAVL keeps the key slice: every leaf would carry the last key — the commitment
+		// then covers only the count and the last element)
+		sets := 0
+		for _, f := range p.AllFuncs() {
+			if pk := engine.FuncPkg(f); pk == nil || !engine.IsRepoPkg(pk) || f.Synthetic != "" || f.Blocks == nil || isTestish(p.Pos(f.Pos())) {
+				continue
+			}
+			for _, c := range engine.Calls(f) {
+				if len(treeSetRetains(c)) > 0 {
+					sets++
+				}
+			}
+			for _, sb := range sharedBufferRetained(f, treeSetRetains) {
+				r.Bad("C03-R10", uniq(r, engine.RelName(f)+"|key handed to tree.Set is a buffer shared by all iterations"), p.InstrPos(sb.At), "the key slice is allocated once outside the loop and rewritten per iteration, but the tree keeps it by reference: all entries end up under the last key — for the transaction commitment, TxHash no longer binds any transaction but the last")
+			}
+		}
+		r.Check(sets >= 5, "C03-R10", "repo|tree.Set keys inside loops are per iteration", "", itoa(int64(sets))+" tree.Set sites scanned", "fewer tree writes found than confirmed by reading")
 		r.Check(scanned > 800, "C03-R9", "validating packages|no result consumed before its error test", "", itoa(int64(scanned))+" functions scanned, no contradiction", "scan too small: "+itoa(int64(scanned))+" functions")
 	}
 }
